@@ -1,4 +1,5 @@
 import SpVerif.Lemmas.Winding
+import SpVerif.Lemmas.WindQ
 import SpVerif.Model.GeomProto
 /-!
 # C02 — point-versus-shape `intersects` is exact
@@ -10,10 +11,14 @@ segment" means.
 
 * point / multipoint / line / multiline: **exact** (`C02_point_point` … `C02_point_multiline`).
 * polygon / multipolygon: the winding loop is pinned down operator by operator (`C02_edge_rule`, its geometric reading
-  `C02_edge_rule_geometric`), shown antisymmetric under reversal of an edge and of a ring, zero outside the bounding box of a
-  closed ring, and the decision logic "inside a shell and in none of its holes" is derived from the per-ring facts
-  (`C02_polygon_logic`, `C02_multipolygon_logic`).  That the per-ring winding number of a *simple* ring is ±1 exactly on its
-  interior (Jordan curve theorem) is **not** proved here: the polygon clause is therefore `_partial`, see DESIGN.md.
+  `C02_edge_rule_geometric`), shown antisymmetric under reversal of an edge and of a ring, **zero outside the bounding box** of a
+  closed ring and **constant along every horizontal or vertical segment, hence on every box, that contains no point of the
+  ring** (`C02_winding_far`, `C02_winding_moves`, `C02_winding_constant_off_ring`: the formalised Appendix B of DESIGN.md, stated
+  at rational points and tied to the coded loop by `C02_winding_rational`), and the decision logic "inside a shell and in none
+  of its holes" is derived from the per-ring facts (`C02_polygon_logic`, `C02_multipolygon_logic`).  What is **not** proved is the
+  topological fact that for a *simple* ring every point off the ring can be joined to infinity crossing the ring transversally
+  an even / odd number of times (Jordan curve theorem); with it the proved facts characterise the winding number as ±1 inside
+  and 0 outside.  The polygon clause is therefore `partial`, see DESIGN.md.
 -/
 namespace SpVerif
 open Geom
@@ -70,6 +75,26 @@ theorem C02_reversal (p : Pt) : (∀ a b, edgeContrib p b a = - edgeContrib p a 
 /-- **far away**: the winding number of a closed ring about a point outside its bounding box is zero -/
 theorem C02_winding_far (p : Pt) (r : List Pt) (hc : Closed r) (bb : Box) (hbb : bboxOf r = some bb) (hout : ¬ BoxHas bb p) :
     ringWinding p r = 0 := ringWinding_far p r hc bb hbb hout
+
+/-- the coded winding loop is the closed-form winding number `windQ` read at the point's (integer) coordinates -/
+theorem C02_winding_rational (p : Pt) (r : List Pt) : ringWinding p r = windQ ((p.1 : ℚ), (p.2 : ℚ)) r := by
+  rw [windQ_cast, ringWinding_eq]
+
+/-- **moving the point without touching the ring does not change the winding number**: along a vertical segment (closed ring)
+and along a horizontal segment that contain no point of any edge -/
+theorem C02_winding_moves (r : List Pt) (hcl : Closed r) (x h h' x' : ℚ) :
+    (h ≤ h' → (∀ s ∈ segs r, SlabClear s.1 s.2 x h h') → windQ (x, h') r = windQ (x, h) r) ∧
+    (x ≤ x' → (∀ s ∈ segs r, RowClear s.1 s.2 x x' h) → windQ (x', h) r = windQ (x, h) r) :=
+  ⟨fun hh hc => windQ_vmove r hcl x h h' hh hc, fun hx hc => windQ_hmove r x x' h hx hc⟩
+
+/-- **the winding number of a closed ring is constant on every box that contains no point of the ring** -/
+theorem C02_winding_constant_off_ring (r : List Pt) (hcl : Closed r) (b : Box) (hclear : BoxClear b r) (q1 q2 : QPt)
+    (h1 : InBoxQ b q1) (h2 : InBoxQ b q2) : windQ q1 r = windQ q2 r :=
+  windQ_const_box r hcl b hclear q1 q2 h1 h2
+
+/-- far away, at rational points too -/
+theorem C02_winding_far_rational (q : QPt) (r : List Pt) (hcl : Closed r) (bb : Box) (hbb : bboxOf r = some bb)
+    (hout : ¬ InBoxQ bb q) : windQ q r = 0 := windQ_far q r hcl bb hbb hout
 
 /-! ### decision logic for polygons with holes and for multipolygons -/
 
